@@ -856,7 +856,17 @@ copies of one Rust function over different representations.  `Lemmas/ReloadProje
 a shell state to a state of C19's model (links ↦ conn id, address text `ipOf addr`, label `mk (ipOf addr)`, an
 arbitrary token `stOf l` of the whole record; same `last_selected_idx`; slot-wise the same tracker; the same I/O KEY
 SET) and the reload step commutes with it.  The ONE side condition: label equality is address equality (`hinj`; true
-of the production label: `C19_mkLabel_injective`).  No input on which the two models differ exists under it. -/
+of the production label: `C19_mkLabel_injective`).  No input on which the two models differ exists under it.
+
+What the projection does NOT compare (audit 5, D2): the socket tokens of `Reload.io` (C19's clause "a survivor keeps
+its socket" lives only in `Model/Reload.lean`; the shell model has no socket identity, so a shell reload that re-bound a
+survivor is inexpressible there), the multiplicity / order of `io` (key SET only), `Sys.reg` (registration indices are
+positional and are NOT remapped by `apply_connection_changes` - the open C07 observation), the `failNext` / `failBind`
+injection lists, and the `Full` components (weak-link filter, CC controller: `Props/SysArm.lean`).
+`r'.pending = r.pending` holds by `rfl`.
+What it is NOT (audit 5, D3): a transfer principle.  No C19 theorem about `Sys.step (.reload ..)` is derived THROUGH
+the projection (the shell has its own `reload_frame`, `reload_exact`, … above); the projection is a CONSISTENCY CHECK
+between two hand-written models of one Rust function, not a C19 clause. -/
 
 open Srtla.ReloadProj in
 /-- **The projection commutes with the reload step.**  `s` a shell state, `r` a state of C19's model with
